@@ -9,6 +9,19 @@ open Saddle Finset
 
 /-! ### `values.idxmin()` -/
 
+/-- the lifted scan rule of `values.idxmin()` (`EGLoopGen.argBetter`): a later value wins only when strictly smaller -/
+theorem argBetter_iff (v b : Rat) : EGLoopGen.argBetter v b = true ↔ v < b := by
+  simp [EGLoopGen.argBetter]
+
+/-- the lifted `L_low` update test of `eval_gap` (`EGGen.lowImproves`) -/
+theorem lowImproves_iff (x l : Rat) : EGGen.lowImproves x l = true ↔ x < l := by
+  simp [EGGen.lowImproves]
+
+/-- `_eval` projects the multiplier BEFORE it computes `L` (lifted statement order `EGLoopGen.evalProjectsFirst`) -/
+theorem projLam_def (X : Ctx) (lam : List Rat) : projLam X lam = projectIf X.ratioOne (X.c.length / 2) (vec lam) := by
+  unfold projLam
+  simp [EGLoopGen.evalProjectsFirst]
+
 theorem argminFrom_spec : ∀ (vs : List Rat) (i bi : Nat) (bv : Rat),
     (argminFrom vs i bi bv).2 ≤ bv ∧ (∀ v ∈ vs, (argminFrom vs i bi bv).2 ≤ v) ∧
     ((argminFrom vs i bi bv) = (bi, bv) ∨
@@ -18,6 +31,7 @@ theorem argminFrom_spec : ∀ (vs : List Rat) (i bi : Nat) (bv : Rat),
     unfold argminFrom
     split
     · next hlt =>
+      have hlt := (argBetter_iff _ _).mp hlt
       obtain ⟨h1, h2, h3⟩ := argminFrom_spec vs (i + 1) i v
       refine ⟨le_trans h1 (le_of_lt hlt), ?_, ?_⟩
       · intro w hw
@@ -29,6 +43,7 @@ theorem argminFrom_spec : ∀ (vs : List Rat) (i bi : Nat) (bv : Rat),
         · exact ⟨0, by simp, by rw [h]; simp, by rw [h]; simp⟩
         · exact ⟨k + 1, by simp; omega, by rw [hk1]; omega, by simpa using hk2⟩
     · next hge =>
+      have hge : ¬ v < bv := fun h => hge ((argBetter_iff _ _).mpr h)
       obtain ⟨h1, h2, h3⟩ := argminFrom_spec vs (i + 1) bi bv
       refine ⟨h1, ?_, ?_⟩
       · intro w hw
@@ -190,8 +205,8 @@ theorem updLow_spec (r : GapRes) (x : Rat) :
     (updLow r x).L = r.L ∧ (updLow r x).Lhigh = r.Lhigh ∧ (updLow r x).Llow ≤ r.Llow ∧ (updLow r x).Llow ≤ x := by
   unfold updLow
   split
-  · next h => exact ⟨rfl, rfl, le_of_lt h, le_refl _⟩
-  · next h => exact ⟨rfl, rfl, le_refl _, not_lt.mp h⟩
+  · next h => exact ⟨rfl, rfl, le_of_lt ((lowImproves_iff _ _).mp h), le_refl _⟩
+  · next h => exact ⟨rfl, rfl, le_refl _, not_lt.mp (fun hh => h ((lowImproves_iff _ _).mpr hh))⟩
 
 theorem updLow_ge (r : GapRes) (x m : Rat) (h1 : m ≤ r.Llow) (h2 : m ≤ x) : m ≤ (updLow r x).Llow := by
   unfold updLow
@@ -284,7 +299,8 @@ theorem lPure_as_value (X : Ctx) (TC : Table) (hc : TC.nC = X.c.length) (ha : An
   rw [lPure_eq TC _ i hi]
   unfold classValue
   have hdot : ∑ j ∈ range TC.nC, projLam X lam j * TC.gam j i = ∑ j ∈ range TC.nC, TC.gam j i * vec lam j := by
-    unfold projLam projectIf
+    simp only [projLam_def]
+    unfold projectIf
     cases hr : X.ratioOne
     · simp only [Bool.false_eq_true, if_false]
       apply Finset.sum_congr rfl; intro j _; ring
@@ -420,7 +436,8 @@ theorem certInv_runN (P : Params) (O : Oracles) (TC : Table) (hO : ∀ k, ∃ i,
 /-! ### the certifying multiplier is non-negative -/
 
 theorem projLam_nonneg (X : Ctx) (lam : List Rat) (h : ∀ x ∈ lam, 0 ≤ x) (j : Nat) : 0 ≤ projLam X lam j := by
-  unfold projLam projectIf
+  rw [projLam_def]
+  unfold projectIf
   split
   · exact Saddle.project_nonneg _ _ j
   · unfold vec
